@@ -288,6 +288,12 @@ def text_level_loaders(ctx, workdir):
         rep = {"cmd": "loadcfg-file", "yaml": text, "impl": got, "model": lm, "model_line": ln}
         ctx.count("file-text:" + got.split()[0])
         if got.startswith("OK"):
+            # a file is ONE mapping: anything else (no document, several documents) must be refused — settings
+            # written after a `---` would otherwise be dropped without a word
+            parts = ln.split(" ")
+            if len(parts) >= 3 and parts[2].isdigit() and int(parts[2]) != 1:
+                ctx.violation("property", "a file holding %s YAML documents loads: only the first is read, the settings written in the others are silently dropped" % parts[2], rep)
+                continue
             # oracle on single-line integer files: what is written is the integer the YAML library reads from the
             # line (yaml-rust has its own leniencies, e.g. `++1` is 1: lexing YAML is the library's business,
             # not the loader's); the loaded value must be that integer
